@@ -427,6 +427,10 @@ def r6_fields(ctx, F):
                 t = vf.render(vf.strip_casts(sv.rvalue(s[2], bb, i)), sb, short=True)
                 t = re.sub(r"\b[\w:]*makedev\(", "makedev(", t)
                 got[s[1][1][2]] = t
+    mk = [x for x in F.fns.values() if x.name == "makedev" and x.key.startswith("passthrough::statx::")]
+    if mk:
+        mr = vf.render(vf.VF(mk[0], inline_depth=0).ret(), mk[0], short=True)
+        ctx.check(rule, "statx/makedev-helper", mr == "libc::makedev(maj, min)", "statx.rs makedev(maj, min) computes `%s`" % mr, loc=mk[0].loc())
     for f, w in sorted(want.items()):
         ctx.check(rule, "statx/" + f, got.get(f) == w, "statx conversion fills %s from `%s`; the stat64 a client sees must carry `%s`" % (f, got.get(f), w), loc=sb.loc(), detail=got.get(f) or "")
     # ---- the CAP_FSETID guard tests, drops and restores the same capability in the same (effective) set
